@@ -9,6 +9,13 @@ def run(ctx):
     # OrigSendingTime, PossDupFlag=N spelled out) x ResendRequests served in between x a fresh send afterwards
     from .c06 import journal_specs
     extra = journal_specs(1 if ctx.quick else 3)
+    # messages with latin-1 text, as application sends and as echoes caused by inbound traffic (a TestReqID is echoed in the
+    # Heartbeat): the journaled bytes must be the bytes put on the wire
+    from .c06 import RF, RS
+    for i, v in enumerate(["Z\xfcrich caf\xe9", "\xff", "a\xa0b"]):
+        extra.append({"id": "l1s%d" % i, "declined": [],
+                      "revs": [{"t": "attach"}, RF("LOGON", 0), RS("APP", "11=q%d|1=%s" % (i, v)), RF("TR", 0, trid="PR\xdcF-%d" % i),
+                               RS("APP", "11=r%d" % i), RF("RR", 0, bm="abs", bv=1, em="abs", ev=0), RS("APP", "11=s%d|1=%s" % (i, v))]})
     out.extra["journal_x_request_traces"] = len(extra)
     sessrun.run_property(ctx, out, "C05", extra_specs=extra)
     return out
